@@ -4,7 +4,7 @@ from translators import tr_c04
 
 PID = "C04"
 CLAIM = True
-MANIFEST_TEXT = ("30 Lean 4 theorems about a two-layer model of Dune::RemoteIndices.  Per-rank layer (merge-join unpackIndices with "
+MANIFEST_TEXT = ("33 Lean 4 theorems about a two-layer model of Dune::RemoteIndices.  Per-rank layer (merge-join unpackIndices with "
                  "rewind and fromOurSelf rule, two-list unpackIndices, the four unpackCreateRemote cases, self message, messages "
                  "of the ring predecessors or of the hinted neighbours in any arrival order), for every process count P>=1, "
                  "every decomposition with at most one entry per global index and set, one or two index sets per rank (also "
@@ -23,17 +23,26 @@ MANIFEST_TEXT = ("30 Lean 4 theorems about a two-layer model of Dune::RemoteIndi
                  "collective_refines (faithful collective buildRemote = per-rank model on every rank).  Histories: for every "
                  "sequence of resizes (any rank/object/contents), free, setIndexSets and collective rebuilds, a rebuild that "
                  "returns leaves every rank with the lists of the *current* index sets, also when it found nothing to do "
-                 "(history_rebuild_fresh, history_rebuild_spec); a rank stays in sync exactly while none of its own two index "
+                 "(history_rebuild_fresh, history_rebuild_spec); after any history every rank works with the index sets, hints and "
+                 "includeSelf value of the last configuration call addressed to it — setIndexSets replaces the hints also by "
+                 "none (config_in_force; gen_configuration ties this to the statements of setIndexSets / setNeighbours / the "
+                 "constructor / setIncludeSelf read from the source), so a history whose last hint-setting calls pass no hints "
+                 "ends with the full pairwise intersections whatever hints were in force before (history_last_hints_ring); "
+                 "a rank stays in sync exactly while none of its own two index "
                  "set objects is resized (world_synced_iff, synced_iff).  Tier B: merge-join and one-set systems with repeated "
                  "global indices (unpack_spec, rebuild_spec_repeated).  The faithful model is run against the real class under "
                  "mpirun -np 1..4 (quick) / 1..8 (thorough) on random distributed histories (collective and single-rank "
-                 "resizes, deletes, rebuilds with both ignorePublic values, free, setIndexSets with exchanged roles, "
-                 "setIncludeSelf, setNeighbours, isSynced queries, both constructors) with PMPI-permuted probe order; the "
-                 "harness oracle recomputes the set definition from the decomposition.")
+                 "resizes, deletes, rebuilds with both ignorePublic values, free, setIndexSets with exchanged roles and with the "
+                 "old, new or no hints, setIncludeSelf, setNeighbours, isSynced queries, both constructors) with PMPI-permuted "
+                 "probe order, for five global index types (int, long, bigunsignedint<24>, bigunsignedint<40>, "
+                 "std::pair<int,int>, with values that need every digit of the MPI datatype) and on MPI_COMM_WORLD, a "
+                 "duplicate, a renumbered communicator or a proper sub-communicator (the left-out processes rebuild on the "
+                 "complement at the same time); the harness oracle recomputes the set definition from the decomposition.")
 MANIFEST_NOTE = ("Trusted: Lean kernel (+propext/Classical.choice/Quot.sound), the hand-written model's fidelity (differential "
                  "runs only, bounded: P<=8, <=70 globals per case), tools/translators/tr_c04.py (expression-level reading of "
-                 "22 decisions/formulas), harness oracle, g++/ASan/UBSan, OpenMPI (reliable, pairwise FIFO; MPI_Pack layout "
-                 "exercised, not modelled).  Hypotheses: hints symmetric and naming another rank on every rank, or absent on "
+                 "22 decisions/formulas and 10 statement-level facts), harness oracle, g++/ASan/UBSan, OpenMPI (reliable, pairwise FIFO; MPI_Pack layout "
+                 "exercised for five global index types, not modelled: the model's global indices are integers and only their order "
+                 "is used).  Hypotheses: hints symmetric and naming another rank on every rank, or absent on "
                  "every rank (anything else deadlocks in MPI; modelled as `buildAll = none`, not executed); all ranks take "
                  "part in every rebuild *and agree whether it is due*: a collective rebuild after a resize on only some ranks "
                  "does not return in the real code (rank A communicates, rank B finds itself in sync and returns; reproduced "
@@ -60,20 +69,25 @@ RULE = ("cases: random distributed histories for P ranks: each global index (<=1
         "sharing graph, one neighbour-mode case in 5 with sharing edges left out); history = resize (collective or rank by "
         "rank), isSynced, rebuild<ign>, then up to 4 phases of: deletes/adds/resizes (source, target, unrelated; collective "
         "or every rank singly)/re-rebuild with possibly flipped ignorePublic | rebuild without resize | unrelated resize | "
-        "free + rebuild | setIndexSets (roles kept or exchanged) + rebuild | setIncludeSelf | setNeighbours (also "
-        "ring<->neighbour) | resize on a strict subset of the ranks + rebuild (skipped: ranks disagree) + the rest + "
-        "rebuild; distinct = distinct op lines; non-trivial = oracle compared at least one non-empty expected list or an "
+        "free + rebuild | setIndexSets (roles kept or exchanged; hints passed again, new covering/sparse hints or none) + "
+        "rebuild | setIncludeSelf | setNeighbours (also ring<->neighbour) | re-targeting (hints, mostly sparse, by "
+        "setNeighbours or setIndexSets; build; setIndexSets with other hints, mostly none; build) | resize on a strict subset of the ranks + rebuild (skipped: ranks disagree) + the rest + "
+        "rebuild; global index type int (45%; one case in 3 near INT_MAX/INT_MIN), long (both halves vary, negative too), "
+        "bigunsignedint<24>, bigunsignedint<40>, pair<int,int> (values = low bits + high bits shifted into the most "
+        "significant digit/component, so that indices differing only there occur); communicator WORLD (55%), dup (10%), all "
+        "processes renumbered (15%), sub-communicator of P-1 or P-2 processes in any order (20%); distinct = distinct op lines; non-trivial = oracle compared at least one non-empty expected list or an "
         "isSynced answer after a rebuild")
 ASSUMPTIONS = [
     "the Lean model (lean/DuneVerif/Model/C04.lean per-rank layer, Model/C04F.lean faithful layer) is hand-written; its fidelity to remoteindices.hh rests on this differential run (P <= 8) and, for 22 one-line decisions/formulas, on the translator tools/translators/tr_c04.py",
-    "MPI is trusted: reliable, pairwise FIFO; MPI_Pack/MPI datatype layout of IndexPair is exercised, not modelled",
+    "MPI is trusted: reliable, pairwise FIFO; MPI_Pack/MPI datatype layout of IndexPair is exercised (global index types int, long, bigunsignedint<24>, bigunsignedint<40>, std::pair<int,int>), not modelled: the model treats global indices as integers of which only the order matters",
+    "the communicator only renumbers the processes (the model has no communicator); exercised with MPI_COMM_WORLD, a duplicate, renumbered and proper sub-communicators",
     "theorems assume at most one entry per global index and index set on a rank (NoDupGlobals); repeated globals are covered by unpack_spec / rebuild_spec_repeated (one-set systems) and the differential runs",
     "neighbour hints are symmetric and name at least one other rank on every rank, or are absent everywhere (otherwise the model's collective buildAll is `none`; never executed)",
     "every rank takes part in every rebuild and the ranks agree whether it is due (all or none resized / freed / changed ignorePublic); otherwise the real call does not return (model: `none`; harness: skipped, observation b!)",
     "the model describes the tree with fixes/C04_localdest_index.patch and fixes/C04_oneset_receives_twoset.patch applied (/repo commits aadf5bf, 6f17323)",
 ]
 TRUSTED = ["g++/libstdc++, ASan/UBSan, OpenMPI", "harness/mpi_c04.cc (generator, executor, set-definition oracle) + harness/pmpi_sched.cc",
-           "tools/translators/tr_c04.py (locating and parsing 22 expressions / statement lists of remoteindices.hh)",
+           "tools/translators/tr_c04.py (locating and parsing 22 expressions / statement lists and 10 statement-level facts of remoteindices.hh)",
            "Driver/C04.lean parsing/printing and the harness-protocol index-set bookkeeping"]
 
 
